@@ -70,6 +70,9 @@ type Config struct {
 	// BusyTimeoutMS is litestream's SQLite busy timeout (0 = fail immediately, the harness default; the
 	// product default is 1000). Only the LCW operation needs it to be non-zero.
 	BusyTimeoutMS int `json:"busy_timeout_ms,omitempty"`
+	// MetaInDBDir: litestream's meta path is the directory that holds the database itself (`meta-path: /data` for
+	// `path: /data/app.db`): legal, unvalidated; the LTX files then live in <dir>/ltx next to the database.
+	MetaInDBDir bool `json:"meta_in_db_dir,omitempty"`
 	// Daemon: litestream objects created from now on run their own monitors (DB monitor and replica monitor at a
 	// 1 ms interval), as `litestream replicate` does; used by C05's daemon-mode phase only.
 	Daemon bool `json:"daemon,omitempty"`
@@ -380,6 +383,9 @@ func (s *Scn) Levels() litestream.CompactionLevels {
 func (s *Scn) lsNew() error {
 	db := litestream.NewDB(s.DBPath)
 	db.MonitorInterval = 0
+	if s.Cfg.MetaInDBDir {
+		db.SetMetaPath(s.Dir)
+	}
 	db.BusyTimeout = time.Duration(s.Cfg.BusyTimeoutMS) * time.Millisecond
 	db.MinCheckpointPageN = s.Cfg.MinCheckpointPageN
 	db.TruncatePageN = s.Cfg.TruncatePageN
